@@ -66,6 +66,9 @@ def fit_and_measure(case, _model=None):
     p = case["params"]
     T1 = weather(case["year"], case["tz"], case["weather_seed"], **case["weather"])
     T2 = weather(case["year"] + 1, case["tz"], case["weather_seed"] + 1, **case["weather"])
+    if case.get("other_year_amplitude"):
+        # a harsher following year: colder winter and hotter summer than anything in the baseline (the curve extrapolates linearly)
+        T2 = T2.mean() + (T2 - T2.mean()) * float(case["other_year_amplitude"])
     us = float(case.get("unit_scale", 1.0))
     g1, g2 = generator(T1.values, p) * us, generator(T2.values, p) * us
     eps = np.random.default_rng(case["noise_seed"]).uniform(-1, 1, len(g1)) * case["noise"]
@@ -280,6 +283,13 @@ def run(ctx):
         b = next((c for c in todo if c["shape"] == "both" and not c.get("history")), todo[0])
         for us in ((1e-3, 1e3) if not thorough else (1e-4, 1e-3, 1e-2, 1e2, 1e3, 1e5)):
             todo.append(dict({k: v for k, v in b.items() if k != "history"}, unit_scale=us))
+    # a following year whose weather goes well beyond the baseline's range (single-slope buildings extrapolate along their line)
+    for shp in ("heating", "cooling"):
+        for _ in range(200):
+            ch = gen_case(rng)
+            if ch["shape"] == shp and ch["profile"] == ("legacy" if shp == "heating" else "current"):
+                break
+        todo.append(dict(ch, other_year_amplitude=1.4, noise=0.005))
     # the same kind of building metered monthly (BillingModel): a heating and a cooling one in the quick tier
     for shp in (("heating", "cooling") if not thorough else ("heating", "cooling", "both", "flat", "heating", "both")):
         for _ in range(200):
